@@ -507,6 +507,18 @@ impl VersionSet {
                         )
                     };
                     crate::verif_hooks::events::emit(
+                        crate::verif_hooks::events::Event::ManifestRecord {
+                            wal: change_manifest.wal_file_number,
+                            prev_wal: change_manifest.prev_wal_file_number,
+                            next_file: change_manifest.curr_file_number,
+                            pointers: change_manifest
+                                .compaction_pointers
+                                .iter()
+                                .map(|(level, k)| (*level, key(k)))
+                                .collect(),
+                        },
+                    );
+                    crate::verif_hooks::events::emit(
                         crate::verif_hooks::events::Event::VersionInstalled {
                             deleted: change_manifest
                                 .deleted_files
